@@ -36,15 +36,19 @@ Edits(s) ==
       ins  == {SubSeq(s, 1, i) \o <<a>> \o SubSeq(s, i + 1, Len(s)) : i \in 0..Len(s), a \in Alphabet(0)}
       del  == {SubSeq(s, 1, i - 1) \o SubSeq(s, i + 1, Len(s)) : i \in DOMAIN s}
   IN {Renum(x) : x \in subs \cup ins \cup del}
-RECURSIVE Ball(_, _)
-Ball(S, d) == IF d = 0 THEN S ELSE Ball(S \cup UNION {Edits(s) : s \in S}, d - 1)
-Neigh == Ball({Renum(t) : t \in Templates}, Dist)
-
-VARIABLE s
-Init == IF Mode = "grow" THEN s = <<>> ELSE s \in Neigh
-Next == /\ Mode = "grow" /\ Len(s) < MaxLen
-        /\ \E a \in Alphabet(Len(s) + 1) : s' = Append(s, a)
-Spec == Init /\ [][Next]_s
+\* the edit ball is explored as TLC steps (one edit per step), so that it is built in parallel and
+\* deduplicated by fingerprint; the view is the script alone
+VARIABLES s, dist
+Init == IF Mode = "grow" THEN s = <<>> /\ dist = 0
+        ELSE s \in {Renum(t) : t \in Templates} /\ dist = 0
+Next == \/ /\ Mode = "grow" /\ Len(s) < MaxLen
+           /\ \E a \in Alphabet(Len(s) + 1) : s' = Append(s, a)
+           /\ dist' = dist
+        \/ /\ Mode = "neigh" /\ dist < Dist
+           /\ s' \in Edits(s)
+           /\ dist' = dist + 1
+Spec == Init /\ [][Next]_<<s, dist>>
+View == s
 
 \* compact token form for the export: <<"op", name>> / <<"push", len, enc, id>>
 Tok(x) == IF IsPush(x) THEN <<"push", x.len, x.enc, x.id>> ELSE <<"op", x.n>>
